@@ -171,8 +171,13 @@ def generate(rng, tier, index):
     n_w = rng.choice([1, 2, 2, 3, 4])
     actors = {}
     fail_calls = {}
+    jopts = {}
     for i in range(n_w):
-        actors["w%d" % i] = rng.choice(KINDS)
+        actors["w%d" % i] = rng.choice(KINDS + ["json-opt"])
+        if actors["w%d" % i] == "json-opt":
+            # the documented `descriptors` option of the JSON writer, in spellings a user might type; whatever a
+            # spelling means, a record line that refers to a definition must find it earlier in the stream
+            jopts["w%d" % i] = rng.choice(["true", "1", "True", "yes", "on", "no", "off", "false", "0", "FALSE"])
         if actors["w%d" % i] == "json-faulty":
             fail_calls["w%d" % i] = sorted(set(rng.randrange(0, 12) for _ in range(rng.choice([1, 1, 2]))))
     keys = sorted(pool)
@@ -223,7 +228,7 @@ def generate(rng, tier, index):
                 open_actors.remove(a)
     for a in sorted(actors):
         ops.append({"op": "close", "actor": a})
-    return {"actors": actors, "pool": pool, "ops": ops, "fail_calls": fail_calls}
+    return {"actors": actors, "pool": pool, "ops": ops, "fail_calls": fail_calls, "jopts": jopts}
 
 
 # -- expectations computed from the plan (harness side, no library) -------------------------------
@@ -446,8 +451,10 @@ class FaultyText(io.TextIOBase):
 
 
 class Actor:
-    def __init__(self, w, aid, kind, fail_calls=()):
+    def __init__(self, w, aid, kind, fail_calls=(), jopt=None):
         from flow.record import RecordStreamWriter, RecordWriter
+
+        self.jopt = None
 
         self.w = w
         self.id = aid
@@ -471,6 +478,12 @@ class Actor:
         elif kind == "json":
             self.path = "/simfs/%s.jsonl" % aid
             self.writer = RecordWriter("jsonfile://" + self.path)
+        elif kind == "json-opt":
+            self.path = "/simfs/%s.jsonl" % aid
+            self.jopt = jopt or "true"
+            self.writer = RecordWriter("jsonfile://%s?descriptors=%s" % (self.path, self.jopt))
+            self.kind = "json"
+            w.probe("json-descriptors-option")
         elif kind == "json-faulty":
             from flow.record.adapter.jsonfile import JsonfileWriter
 
@@ -533,7 +546,7 @@ def execute(plan, keep_log=False):
         pj = plan["pool"]
         actors = {}
         for aid in sorted(plan["actors"]):
-            actors[aid] = Actor(w, aid, plan["actors"][aid], (plan.get("fail_calls") or {}).get(aid, ()))
+            actors[aid] = Actor(w, aid, plan["actors"][aid], (plan.get("fail_calls") or {}).get(aid, ()), (plan.get("jopts") or {}).get(aid))
         w.log("plan", "actors", " ".join("%s=%s" % (a, plan["actors"][a]) for a in sorted(actors)), "ops=%d" % len(plan["ops"]))
         last_writer = None
         for oi, op in enumerate(plan["ops"]):
@@ -623,6 +636,8 @@ def execute(plan, keep_log=False):
                 data, _ = a.plain()
                 n = 0
                 try:
+                    if a.jopt and not _has_typed_lines(data):
+                        continue  # written without definitions and without references to them: nothing for C03 to say
                     if a.kind == "json":
                         text = data.decode("utf-8", "surrogateescape")
                         lines = text.split("\n")
@@ -664,6 +679,9 @@ def execute(plan, keep_log=False):
                 continue
             data, complete = a.plain()
             sfx = "@json" if a.kind == "json" else ""
+            if a.jopt and not _has_typed_lines(data):
+                w.probe("json-without-definitions")
+                continue
             if a.kind == "json":
                 vs, events = check_json_stream(data.decode("utf-8", "surrogateescape"), a.expected, sfx, w)
             else:
@@ -711,6 +729,14 @@ def execute(plan, keep_log=False):
         trace = w.trace
     sample = {"actors": plan["actors"], "ops": [_op_str(o) for o in plan["ops"]][:24]}
     return {"violations": viols, "digest": digest, "stats": stats, "states": states, "evals": 1, "sim_us": 0, "trace": trace, "sample": sample if len(plan["ops"]) > 4 else None}
+
+
+def _has_typed_lines(data):
+    """Does a JSON-lines output contain definition lines or record lines that refer to a definition?"""
+    try:
+        return any(k in ("DESC", "REC") for k, _ in refcodec.walk_jsonl(data.decode("utf-8", "surrogateescape")))
+    except Exception:  # noqa: BLE001
+        return True
 
 
 def _json_norm(o):
